@@ -1,5 +1,5 @@
 #!/venv/bin/python
-"""tools/mutation_campaign.py <n-mutants> <seed> [--workers 3] [--out results.jsonl]
+"""tools/mutation_campaign.py <n-mutants> <seed> [--skip k] [--workers 3] [--out results.jsonl]
 
 Systematic sensitivity measurement: AST-level mutants of /repo/pypika_tortoise (comparison / boolean operator swaps, negation of
 conditions, True<->False, small integers +-1, deleted statements, flipped boolean keyword arguments), sampled with a fixed seed.
@@ -135,7 +135,8 @@ def main():
             shutil.copy(os.path.join(d, rel), os.path.join(d, rel + ".orig"))
     rnd = random.Random(seed)
     rnd.shuffle(ms)
-    ms = ms[:n]
+    skip = int(sys.argv[sys.argv.index("--skip") + 1]) if "--skip" in sys.argv else 0
+    ms = ms[skip:skip + n]
     free = list(dirs)
 
     def job(m):
